@@ -1463,7 +1463,43 @@ func (self *Node) Load() error {
 	if self.m == nil {
 		self.m = new(sync.RWMutex)
 	}
-	return self.checkRaw()
+	if err := self.checkRaw(); err != nil {
+		return err
+	}
+	self.shareChildren()
+	return nil
+}
+
+// shareChildren makes the children that were visited BEFORE Load() readable
+// concurrently as well: they were parsed lazily without a lock, unlike the
+// children Load() has just created.
+func (self *Node) shareChildren() {
+	switch self.t {
+	case types.V_ARRAY:
+		s := (*linkedNodes)(self.p)
+		for i := 0; i < s.Len(); i++ {
+			s.At(i).share()
+		}
+	case types.V_OBJECT:
+		s := (*linkedPairs)(self.p)
+		for i := 0; i < s.Len(); i++ {
+			s.At(i).Value.share()
+		}
+	}
+}
+
+func (self *Node) share() {
+	switch {
+	case self.t&_V_RAW != 0:
+		// parsed on first access, under its own lock
+		if self.m == nil {
+			self.m = new(sync.RWMutex)
+		}
+	case self.t == _V_ARRAY_LAZY || self.t == _V_OBJECT_LAZY:
+		_ = self.Load()
+	case self.t == types.V_ARRAY || self.t == types.V_OBJECT:
+		self.shareChildren()
+	}
 }
 
 /**---------------------------------- Internal Helper Methods ----------------------------------**/
